@@ -42,22 +42,39 @@ MANIFEST = {
             "source (declared fields, mutators, lazy initialisers, every lru_cache method with its transitive "
             "read-set, write-sets), the exact list of offending (cached method, mutable field) pairs (F6, F14) with the "
             "obligation proved for all other caches, derivations write no parent field, two-thread interleaving "
-            "confluence of the test/compute/store cache protocol (every schedule); plus random histories over shared "
-            "objects checked call-by-call against fresh objects and against the extracted memo model.",
+            "confluence of the test/compute/store cache protocol (every schedule); for a process as a state machine, "
+            "results a function of (immutable fields, arguments) => any two histories ending with the same call agree, "
+            "every position of every history gives the fresh-process value, one failing history refutes every such "
+            "function, snapshot criterion (hidden state unchanged up to cache fills), instantiated on the memo model and "
+            "on the generated table; plus random histories over shared objects checked call-by-call against fresh "
+            "objects and against the extracted memo model, and a reflectively generated catalogue (every coin, "
+            "configuration, address class, mnemonic family x language incl. shared-word mnemonics, wallets, codecs) run "
+            "as permutation / star / Euler-tour / threaded histories and first-use barrier schedules in worker "
+            "interpreters, every call against its fresh-interpreter value, process-state snapshots before/after, "
+            "failing histories delta-debugged and replayable.",
     "note": "The static read/write-set analysis (harness/gen_objects.py) is trusted (hypotheses reads_sound/gen_covers); "
             "real thread scheduling, the GIL and dict atomicity are outside the model -- the threaded replay is a test.",
     "technique": "Coq proof (induction over histories and schedules) + vm_compute obligations over the generated object "
                  "table + history replay (fresh objects, fresh interpreter, permutations, threads) + extracted-model "
-                 "staleness prediction",
+                 "staleness prediction + reflective catalogue, fresh-interpreter oracle per call, process-state "
+                 "snapshots, delta-debugged failing histories",
     "ref": "7/C15",
 }
 RULE = ("A case is (history, position): the call at that position of a history over the operation catalogue "
         "(conversion points and toggle flips inserted at every position of base call sequences, plus random "
-        "histories); its result is compared with a fresh object in the same logical state.")
+        "histories); its result is compared with a fresh object in the same logical state.  A case of fn=history_run "
+        "is one whole history over the reflective catalogue, run in a worker interpreter of its own and identified by "
+        "shape, length and SHA-1 of its operation list: every call of it is compared with the fresh-interpreter value "
+        "and the process-state snapshot before/after is classified (the number of compared calls is in "
+        "input_distribution.reflective.calls_compared).")
 TRUSTED = ["harness/gen_objects.py static analysis of bip_utils (typed receivers, virtual dispatch over subclasses, "
            "by-name resolution for untyped receivers; conf narrowing checked against the coin tables in Coq)",
            "object graph used for the model prediction (which object owns the field a method reads) is written in "
-           "harness/props/C15.py; GetAddress of Electrum v2 / Byron legacy is taken not to depend on the private flag (C04)"]
+           "harness/props/C15.py; GetAddress of Electrum v2 / Byron legacy is taken not to depend on the private flag (C04)",
+           "harness/c15ops.py: canonical rendering of results and of the process-state snapshot (what is walked and what is "
+           "not is listed in input_distribution.snapshot_exclusions); quick tier: a child forked from an interpreter that has "
+           "only imported bip_utils is taken to be a fresh interpreter (every difference is confirmed in newly started "
+           "interpreters, which the thorough tier uses throughout)"]
 ASSUMPTIONS = ["reads_sound: a method's result depends only on the fields of its read-set",
                "gen_covers: the generated table lists every mutable field a memoised method reads"]
 BUDGET = {"quick": 150, "thorough": 1500}
@@ -138,6 +155,14 @@ def build(key):
     finally:
         for t, v in saved.items():
             toggle_set(t, v)
+
+
+class _LazyObjs(dict):
+    """the shared objects of one history, each built (with the construction toggles off, see build) at its first
+       use in the history"""
+    def __missing__(self, key):
+        self[key] = build(key)
+        return self[key]
 
 
 def convert(key, obj):
@@ -360,7 +385,7 @@ def execute(history, oracle=True, shared=None):
        None, mutation reports).  Mutators yield ["mut"]."""
     reset_toggles()
     del MUTATIONS[:]
-    objs = shared if shared is not None else {k: build(k) for k in BUILDERS}
+    objs = shared if shared is not None else _LazyObjs()     # each shared object is built when first used
     converted = set()
     res, fresh = [], []
     try:
@@ -568,6 +593,15 @@ FUNCS = {
     "fresh_interpreter": Func(impl=impl_replay, direct=direct_replay),
     "threads": Func(impl=lambda a: 0, direct=lambda a: threaded(a)),
     "is_memoised": Func(model=lambda m, a: _flag(m.call("memo_info", a[0].encode())), impl=lambda a: runtime_cached(a[0])),
+    # ---- reflective catalogue (see reflective()): args hold the operation specifications, so a replay re-runs them
+    "history": Func(impl=lambda a: 0, direct=lambda a: direct_history(a)),
+    "snapshot": Func(model=lambda m, a: _model_rules(m, a), impl=lambda a: 0, direct=lambda a: direct_snapshot(a)),
+    "cache_fill": Func(model=lambda m, a: _model_rules(m, a), impl=lambda a: 0, direct=lambda a: direct_fill(a)),
+    "threaded_history": Func(impl=lambda a: 0, direct=lambda a: direct_threaded(a)),
+    "unstable_op": Func(impl=lambda a: 0, direct=lambda a: direct_unstable(a)),
+    # args: [rounds (each a list of operation specifications, one per thread), seed]
+    "race_schedule": Func(impl=lambda a: 0, direct=lambda a: direct_race(a)),
+    "history_run": Func(impl=lambda a: a[1], direct=lambda a: direct_history_run(a)),
 }
 
 
@@ -610,6 +644,506 @@ def runtime_methods():
 
 def runtime_cached(name):
     return runtime_methods()[name]
+
+
+# ----------------------------------------------------------------------------------- reflective histories
+# (catalogue: harness/c15ops.py; pool, oracle, snapshot rules, delta debugging: harness/c15hist.py)
+import hashlib
+import re
+import time
+
+import c15ops
+import c15hist
+
+_R = {"pool": None, "oracle": None, "own": None, "rules": None, "rules_source": None, "verdict": {}}
+# used only when the extracted model is not available (the list normally comes from Gen/Objects.v lazy_fields)
+DEFAULT_LAZY = ["MnemonicWordsListGetterBase.__instance", "MnemonicWordsListGetterBase.m_words_lists"]
+
+
+def _pool():
+    if _R["pool"] is None:
+        import atexit
+        _R["pool"] = c15hist.Pool(14)
+        _R["oracle"] = c15hist.Oracle(_R["pool"], own=False)
+        _R["own"] = c15hist.Oracle(_R["pool"], own=True)       # fresh values from interpreters of their own
+        atexit.register(_R["pool"].close)
+    return _R["pool"]
+
+
+def _txt(x):
+    return bytes(x).decode() if isinstance(x, (bytes, bytearray)) else (x.str() if hasattr(x, "str") else str(x))
+
+
+def _rules(m=None):
+    if _R["rules"] is None or (m is not None and _R["rules_source"] != "Gen/Objects.v lazy_fields"):
+        lazy = None
+        if m is not None:
+            try:
+                r = m.call("object_fields")
+                if r[0] == "ok":
+                    lazy = [_txt(x) for x in r[1][0]]
+            except Exception:  # noqa
+                lazy = None
+        _R["rules"] = c15hist.SnapRules(lazy if lazy is not None else DEFAULT_LAZY)
+        _R["rules_source"] = "Gen/Objects.v lazy_fields" if lazy is not None else "built-in default (model not available)"
+    return _R["rules"]
+
+
+def _model_rules(m, a):
+    """no model value is compared for these entry points: the call only hands the generated lazy-field list
+       (which snapshot differences are cache fills) to the direct check"""
+    _rules(m)
+    return ("ok", 0)
+
+
+def _names(ops):
+    return [c15ops.op_name(s) for s in ops]
+
+
+def _short(v, n=160):
+    s = json.dumps(v)
+    return s if len(s) <= n else s[:n] + "..."
+
+
+def direct_history(a):
+    """the history in an interpreter of its own; every call against the value it has first thing in an interpreter
+       of its own"""
+    ops = a[0]
+    pool = _pool()
+    ans = pool.run([{"ops": ops}], True)[0]
+    if "res" not in ans:
+        return "history worker failed: %s" % _short(ans)
+    _R["own"].ensure(ops)
+    for i in c15hist.mismatches(_R["own"], ops, ans["res"]):
+        if c15ops.selfcheck_bad(ans["res"][i]):
+            return "%s after %s: one shared object and a new object per call disagree: %s vs %s" % (
+                c15ops.op_name(ops[i]), _names(ops[:i]), _short(ans["res"][i][1][1]), _short(ans["res"][i][1][2]))
+        return "%s after %s returns %s; first thing in a fresh interpreter it returns %s" % (
+            c15ops.op_name(ops[i]), _names(ops[:i]), _short(ans["res"][i]), _short(_R["own"].value(ops[i])))
+    return None
+
+
+def direct_snapshot(a):
+    ops = a[0]
+    ans = _pool().run([{"ops": ops, "snap": True}], True)[0]
+    if "diff" not in ans:
+        return "history worker failed: %s" % _short(ans)
+    bad, _ = _rules().classify(ans["diff"])
+    if bad:
+        return "process-wide state changed by %s (not a fill of a memoisation cache): %s" % (
+            _names(ops), "; ".join("%s: %s -> %s" % (p, _short(x, 80), _short(y, 80)) for p, x, y in bad[:3]) +
+            (" (+%d more)" % (len(bad) - 3) if len(bad) > 3 else ""))
+    return None
+
+
+def direct_fill(a):
+    """the memoisation-cache entries two histories both filled must hold the same values"""
+    rules = _rules()
+    ans = _pool().run([{"ops": a[0], "snap": True}, {"ops": a[1], "snap": True}], True)
+    if any("diff" not in x for x in ans):
+        return "history worker failed: %s" % _short(ans)
+    f0, f1 = (dict(rules.classify(x["diff"])[1]) for x in ans)
+    for pth in sorted(set(f0) & set(f1)):
+        if f0[pth] != f1[pth]:
+            return "memoisation cache entry %s holds %s after %s but %s after %s" % (
+                pth, _short(f0[pth], 80), _names(a[0]), _short(f1[pth], 80), _names(a[1]))
+    return None
+
+
+def direct_threaded(a):
+    ops, nth = a
+    ans = _pool().run([{"ops": ops, "threads": nth}], True)[0]
+    if "tres" not in ans:
+        return "history worker failed: %s" % _short(ans)
+    _R["own"].ensure(ops)
+    for th, res in enumerate(ans["tres"]):
+        for i in c15hist.mismatches(_R["own"], ops, res):
+            return "thread %d of %d: %s returns %s; first thing in a fresh interpreter it returns %s" % (
+                th, nth, c15ops.op_name(ops[i]), _short(res[i]), _short(_R["own"].value(ops[i])))
+    return None
+
+
+RACE_REPLAYS = 5
+
+
+def direct_race(a):
+    """the schedule (rounds of operations started together behind a barrier) in fresh interpreters of their own, a
+       few times (thread scheduling is not reproducible): any run in which a thread's result is not the
+       single-threaded fresh value of its operation"""
+    rounds, seed = a[0], int(a[1])
+    flat = [s for r in rounds for s in r]
+    _pool()
+    _R["own"].ensure(flat)
+    ans = _R["pool"].run([{"rounds": rounds, "seed": seed + k} for k in range(RACE_REPLAYS)], True)
+    for k, x in enumerate(ans):
+        if "rres" not in x:
+            return "schedule worker failed: %s" % _short(x)
+        for ri, ti in c15hist.round_mismatches(_R["own"], rounds, x["rres"]):
+            return "run %d of %d (seed %d): thread %d of %d, all started together in a fresh interpreter%s, %s returns %s; " \
+                   "single-threaded in a fresh interpreter it returns %s (the threads ran %s)" % (
+                       k + 1, RACE_REPLAYS, seed + k, ti, len(rounds[ri]),
+                       "" if ri == 0 else " after %d earlier rounds" % ri, c15ops.op_name(rounds[ri][ti]),
+                       _short(x["rres"][ri][ti]), _short(_R["own"].value(rounds[ri][ti])),
+                       sorted(set(_names(rounds[ri]))))
+    return None
+
+
+def build_race_schedules(ctx, ops, nthreads=8):
+    """Each schedule is for ONE fresh interpreter: for every resource key (word list of a family and language,
+       coin of a hierarchy, Bip32 class, curve, codec ...) one round in which nthreads threads, released together,
+       use it -- all the same operation, or operations drawn from those that share the key.  Whatever is lazily
+       initialised on first use is initialised under contention in the first round that touches it."""
+    rng = ctx.rng
+    by_key = {}
+    for o in ops:
+        if o.threadsafe and not o.spec[0].startswith("bip38"):
+            by_key.setdefault(c15ops.resource_key(o.spec), []).append(o.spec)
+    keys = sorted(by_key)
+    out = []
+    for n in range(ctx.n(6, 40)):
+        ks = list(keys)
+        rng.shuffle(ks)
+        if n % 2 == 0:
+            # explicit-language mnemonic rounds before the automatic-language ones (which load several word lists)
+            ks.sort(key=lambda k: k.startswith("mn|") and (k.endswith("|None") or k.endswith("|shared")))
+        if ctx.quick and len(ks) > 220:
+            mn = [k for k in ks if k.startswith("mn|")]
+            rest = [k for k in ks if not k.startswith("mn|")]
+            ks = [k for k in ks if k in set(mn) | set(rng.sample(rest, 220 - min(220, len(mn))))]
+        rounds = []
+        for k in ks:
+            if rng.random() < 0.5:
+                rounds.append([rng.choice(by_key[k])] * nthreads)
+            else:
+                rounds.append([rng.choice(by_key[k]) for _ in range(nthreads)])
+        out.append((rounds, rng.randrange(1 << 30)))
+    return out, len(keys)
+
+
+def shrink_race(pool, orc, rounds, seed, ri):
+    """a failing schedule -> the failing round alone if that still fails in some of 8 fresh interpreters, else the
+       schedule up to that round, else the schedule as it is"""
+    for cand in ([rounds[ri]], rounds[:ri + 1]):
+        ans = pool.run([{"rounds": cand, "seed": seed + k} for k in range(8)], True)
+        for k, x in enumerate(ans):
+            if "rres" in x and c15hist.round_mismatches(orc, cand, x["rres"]):
+                return cand, seed + k
+    return rounds, seed
+
+
+def direct_unstable(a):
+    """an operation whose value differed once but not on replay: alone in 6 interpreters and 6 times in a row"""
+    spec = a[0]
+    ans = _pool().run([{"ops": [spec]} for _ in range(6)] + [{"ops": [spec] * 6}], True)
+    vals = [json.dumps(r) for x in ans for r in x.get("res", [])]
+    if len(set(vals)) > 1:
+        return "%s is not a function of its arguments: %s" % (c15ops.op_name(spec), sorted(set(vals))[:3])
+    return None
+
+
+def direct_history_run(a):
+    """a whole history already evaluated in this run (its verdict is looked up by digest)"""
+    v = _R["verdict"].get(a[2])
+    if v is None:
+        return "history %s was not evaluated in this process" % a[2]
+    return v or None
+
+
+def euler_tour(items, rng):
+    """a sequence in which every ordered pair (a, b) of items, a == b included, occurs as two consecutive elements
+       exactly once (Eulerian circuit of the complete digraph with loops; Hierholzer)"""
+    n = len(items)
+    if n == 0:
+        return []
+    adj = []
+    for v in range(n):
+        out = list(range(n))
+        rng.shuffle(out)
+        adj.append(out)
+    stack, circuit = [rng.randrange(n)], []
+    while stack:
+        v = stack[-1]
+        if adj[v]:
+            stack.append(adj[v].pop())
+        else:
+            circuit.append(stack.pop())
+    circuit.reverse()
+    return [items[i] for i in circuit]
+
+
+def star(victim, others, rng):
+    """others interleaved with the victim: o1 v o2 v o3 v ..."""
+    oth = list(others)
+    rng.shuffle(oth)
+    out = []
+    for o in oth:
+        out.append(o)
+        out.append(victim)
+    return out
+
+
+def build_histories(ctx, ops):
+    rng = ctx.rng
+    heavy = {c15hist.key(o.spec) for o in ops if o.spec[0].startswith("bip38")}
+    light = [o for o in ops if c15hist.key(o.spec) not in heavy]
+    hist = []
+    for _ in range(ctx.n(8, 28)):
+        h = [o.spec for o in ops] + [o.spec for o in light]
+        rng.shuffle(h)
+        hist.append(("permutation", h))
+    domains = {}
+    for o in light:
+        for tg in o.tags:
+            domains.setdefault(tg, []).append(o)
+    # stars: every operation whose input is ambiguous, directly after every other operation of its domain
+    cap = ctx.n(100000, 800000)
+    chunks, cur, total = [], [], 0
+    work = []
+    for tg in sorted(domains):
+        for v in [o for o in domains[tg] if o.amb]:
+            work.append((tg, v))
+    rng.shuffle(work)
+    for tg, v in work:
+        oth = [o.spec for o in domains[tg] if o is not v]
+        if len(oth) > 400:
+            oth = rng.sample(oth, 400)
+        st = star(v.spec, oth, rng)
+        if total + len(st) > cap:
+            continue
+        total += len(st)
+        cur += st
+        if len(cur) > 5000:
+            chunks.append(cur)
+            cur = []
+    if cur:
+        chunks.append(cur)
+    hist += [("star", c) for c in chunks]
+    # euler tours: every ordered pair of operations of a domain adjacent once (a domain above 20 operations: a sample)
+    cap = ctx.n(40000, 400000)
+    chunks, cur, total = [], [], 0
+    doms = sorted(domains)
+    rng.shuffle(doms)
+    for tg in doms:
+        lst = [o.spec for o in domains[tg]]
+        if len(lst) < 2:
+            continue
+        if len(lst) > 20:
+            lst = rng.sample(lst, 20)
+        tour = euler_tour(lst, rng)
+        if total + len(tour) > cap:
+            continue
+        total += len(tour)
+        cur += tour
+        if len(cur) > 5000:
+            chunks.append(cur)
+            cur = []
+    if cur:
+        chunks.append(cur)
+    hist += [("euler", c) for c in chunks]
+    safe = [o.spec for o in light if o.threadsafe]
+    thr = [("threads", rng.sample(safe, min(len(safe), 150))) for _ in range(ctx.n(2, 10))]
+    return hist, thr, {tg: len(v) for tg, v in domains.items()}
+
+
+def _digest(h):
+    return hashlib.sha1(json.dumps(h).encode()).hexdigest()[:16]
+
+
+def reflective(ctx):
+    t0 = time.time()
+    rng = ctx.rng
+    pool, rules = _pool(), _rules(ctx.m)
+    orc = _R["oracle"]
+    thorough = not ctx.quick
+    ops, info = c15ops.build_catalogue(rng, thorough, 70)
+    specs = [o.spec for o in ops]
+    # (i) every operation first thing in a fresh interpreter, each in its own (quick: a child forked from an
+    #     interpreter that has only imported the library; thorough: a newly started interpreter)
+    orc.ensure(specs, own=thorough)
+    t_fresh = time.time() - t0
+    for sp in specs:
+        if c15ops.selfcheck_bad(orc.value(sp)):          # inconsistent in itself, with nothing before it
+            ctx.run("history", [[sp]], "selfcheck")
+    hist, thr, domains = build_histories(ctx, ops)
+    hist.sort(key=lambda x: -len(x[1]))
+    # (ii) every history is the whole life of one worker; process-state snapshot before and after
+    answers = pool.run([{"ops": h, "snap": True} for _, h in hist], thorough)
+    tanswers = pool.run([{"ops": h, "threads": 4} for _, h in thr], thorough)
+    t_hist = time.time() - t0
+    # (ii') schedule stream: first use under contention, each schedule in a newly started interpreter of its own
+    races, nkeys = build_race_schedules(ctx, ops)
+    ranswers = pool.run([{"rounds": r, "seed": sd} for r, sd in races], True)
+    t_race = time.time() - t0
+    shrinker = c15hist.Shrinker(pool, orc, rules)
+    calls, res_fail, snap_fail, fill_fail, crashes = 0, [], [], [], []
+    shapes = {}
+    snapshot_size = 0
+    for idx, ((shape, h), a) in enumerate(zip(hist, answers)):
+        sh = shapes.setdefault(shape, {"histories": 0, "calls": 0})
+        sh["histories"] += 1
+        sh["calls"] += len(h)
+        if "res" not in a or "diff" not in a:
+            crashes.append((shape, h, a))
+            continue
+        calls += len(h)
+        snapshot_size = max(snapshot_size, a.get("snapshot_size", 0))
+        mm = c15hist.mismatches(orc, h, a["res"])
+        bad, fills = rules.classify(a["diff"])
+        fb = []
+        for pth, val in fills:
+            if pth in rules.fills and rules.fills[pth][0] != val:
+                fb.append((pth, rules.fills[pth][1]))
+            rules.fills.setdefault(pth, (val, idx))
+        res_fail += [(idx, i) for i in mm]
+        snap_fail += [(idx, e) for e in bad]
+        fill_fail += [(idx, pth, other) for pth, other in fb]
+        dg = _digest(h)
+        if not mm and not bad and not fb:
+            _R["verdict"][dg] = ""
+            ctx.run("history_run", [shape, len(h), dg], shape)
+    for (shape, h), a in zip(thr, tanswers):
+        sh = shapes.setdefault(shape, {"histories": 0, "calls": 0})
+        sh["histories"] += 1
+        if "tres" not in a:
+            crashes.append((shape, h, a))
+            continue
+        sh["calls"] += 4 * len(h)
+        calls += 4 * len(h)
+        if any(c15hist.mismatches(orc, h, r) for r in a["tres"]):
+            # is it the threads, or do the same operations differ one after the other as well (forwards or
+            # backwards)?  In the second case it is an ordinary failing history and is shrunk as such
+            seqs = [list(h), list(reversed(h))]
+            sa = pool.run([{"ops": q} for q in seqs], thorough)
+            seq_bad = False
+            for q, b in zip(seqs, sa):
+                mm = c15hist.mismatches(orc, q, b["res"]) if "res" in b else []
+                if mm:
+                    seq_bad = True
+                    hist.append(("threads-sequential", q))
+                    res_fail += [(len(hist) - 1, i) for i in mm]
+            if not seq_bad:
+                ctx.run("threaded_history", [h, 4], "threads")      # its direct check re-runs and reports
+        else:
+            dg = _digest(["threads", h])
+            _R["verdict"][dg] = ""
+            ctx.run("history_run", ["threads", len(h), dg], "threads")
+    for shape, h, a in crashes[:3]:
+        _R["verdict"][_digest(h)] = "worker failed on a %s history of %d operations: %s" % (shape, len(h), _short(a))
+        ctx.run("history_run", [shape, len(h), _digest(h)], shape)
+    race_calls, race_bad, race_seq = 0, 0, 0
+    for (rounds, sd), a in zip(races, ranswers):
+        if "rres" not in a:
+            _R["verdict"][_digest(rounds)] = "schedule worker failed: %s" % _short(a)
+            ctx.run("history_run", ["race", len(rounds), _digest(rounds)], "race")
+            continue
+        race_calls += sum(len(r) for r in rounds)
+        bad = c15hist.round_mismatches(orc, rounds, a["rres"])
+        if bad:
+            # the threads, or the order?  The same operations one after the other in one interpreter (round by round,
+            # forwards and backwards): if they differ as well it is an ordinary failing history, shrunk as such
+            seq = [sp for r in rounds[:bad[0][0] + 1] for sp in r]
+            seqs = [seq, list(reversed(seq))]
+            sa = pool.run([{"ops": q} for q in seqs], thorough)
+            seq_bad = False
+            for q, x in zip(seqs, sa):
+                mm = c15hist.mismatches(orc, q, x["res"]) if "res" in x else []
+                if mm:
+                    seq_bad = True
+                    hist.append(("race-sequential", q))
+                    res_fail += [(len(hist) - 1, i) for i in mm]
+            if seq_bad:
+                race_seq += 1
+                continue
+            race_bad += 1
+            if race_bad <= 3:
+                small, sd2 = shrink_race(pool, orc, rounds, sd, bad[0][0])
+                ctx.run("race_schedule", [small, sd2], "race")        # its direct check re-runs it a few times
+        else:
+            _R["verdict"][_digest(rounds)] = ""
+            ctx.run("history_run", ["race", len(rounds), _digest(rounds)], "race")
+    # (iii) failing histories: delta-debugged to a minimal one, confirmed in interpreters of their own
+    deadline = t0 + ctx.n(150, 900)
+    notes = []
+    groups = {}
+    for idx, i in res_fail:
+        k = c15hist.key(hist[idx][1][i])
+        if k not in groups or i < groups[k][1]:
+            groups[k] = (idx, i)
+    picked, kinds = [], set()
+    for k, (idx, i) in sorted(groups.items(), key=lambda kv: kv[1][1]):
+        kd = hist[idx][1][i][0]
+        if kd not in kinds and len(picked) < ctx.n(5, 12):
+            kinds.add(kd)
+            picked.append((idx, i))
+    for idx, i in picked:
+        if time.time() > deadline:
+            notes.append("shrinking stopped at the time limit")
+            break
+        shape, h = hist[idx]
+        r = shrinker.result_failure(h, i, budget_s=ctx.n(25, 120))
+        if r is None:
+            notes.append("difference at %s (position %d of a %s history) did not reproduce" % (c15ops.op_name(h[i]), i, shape))
+            ctx.run("unstable_op", [h[i]], "unstable")
+        elif len(r[0]) == 1:
+            ctx.run("unstable_op", [h[i]], "unstable")
+        else:
+            if not r[3]:
+                notes.append("minimal history %s differs in forked workers only" % _names(r[0]))
+            ctx.run("history", [r[0]], "shrunk:" + shape)
+    # one report per attribute (the same class attribute / configuration field of many coins is one defect), taken
+    # from the shortest history that shows it; identical shrunk histories are reported once
+    sgroups = {}
+    for idx, e in snap_fail:
+        leaf = c15hist.attr_of(e[0])
+        if leaf not in sgroups or len(hist[idx][1]) < len(hist[sgroups[leaf][0]][1]):
+            sgroups[leaf] = (idx, e)
+    reported = set()
+    for leaf, (idx, e) in sorted(sgroups.items())[:ctx.n(4, 10)]:
+        if time.time() > deadline:
+            notes.append("shrinking stopped at the time limit")
+            break
+        shape, h = hist[idx]
+        small = shrinker.snapshot_failure(h, e[0], budget_s=ctx.n(25, 120))
+        if small is None:
+            notes.append("snapshot difference at %s did not reproduce" % e[0])
+        elif c15hist.key(small) not in reported:
+            reported.add(c15hist.key(small))
+            ctx.run("snapshot", [small], "shrunk:" + shape)
+    fseen = set()
+    for idx, pth, other in fill_fail:
+        leaf = c15hist.attr_of(pth)
+        if leaf in fseen or len(fseen) >= 2 or time.time() > deadline:
+            continue
+        fseen.add(leaf)
+        r = shrinker.fill_failure(hist[other][1], hist[idx][1], pth, budget_s=ctx.n(30, 120))
+        if r is None:
+            notes.append("cache-fill difference at %s did not reproduce" % pth)
+        else:
+            ctx.run("cache_fill", [r[0], r[1]], "fill")
+    ctx.dist["reflective"] = {
+        "catalogue": info, "domains": len(domains), "histories": shapes, "calls_compared": calls,
+        "fresh_values": {"operations": len(specs), "each_in": "own interpreter" if thorough else
+                         "own child forked from an interpreter that only imported the library; differences are "
+                         "confirmed in interpreters of their own"},
+        "snapshot": {"entries": snapshot_size, "cache_fills_seen": len(rules.fills),
+                     "fill_rule_source": _R["rules_source"], "lazy_fields": rules.lazy},
+        "differences": {"result": len(res_fail), "snapshot": len(snap_fail), "cache_fill": len(fill_fail),
+                        "race": race_bad,
+                        "worker_failures": len(crashes)},
+        "race_schedules": {"interpreters": len(races), "threads_per_round": 8, "resource_keys": nkeys,
+                           "rounds": sum(len(r) for r, _ in races), "calls_compared": race_calls,
+                           "schedules_with_differences": race_bad,
+                           "schedules_that_differ_sequentially_too": race_seq, "switch_interval": 1e-6},
+        "notes": notes, "pool": dict(pool.stats),
+        "wall_s": {"fresh": round(t_fresh, 1), "histories": round(t_hist - t_fresh, 1),
+                   "race_schedules": round(t_race - t_hist, 1), "total": round(time.time() - t0, 1)},
+    }
+    ctx.dist["snapshot_exclusions"] = list(c15ops.SNAPSHOT_EXCLUSIONS)
+    ctx.note_exhaustive("reflective catalogue of %d operations (%d of them with inputs ambiguous between languages / "
+                        "coins / formats): each alone in a fresh interpreter; %s" % (
+                            len(specs), info["ambiguous_inputs"],
+                            ", ".join("%d %s histories (%d calls)" % (v["histories"], k, v["calls"])
+                                      for k, v in sorted(shapes.items()))))
 
 
 # ----------------------------------------------------------------------------------- known findings
@@ -690,6 +1224,9 @@ def run_history(ctx, h, tag):
 
 def generate(ctx):
     rng = ctx.rng
+    reflective(ctx)
+    if os.environ.get("C15_ONLY_REFLECTIVE") == "1":      # development aid: skip the object-history half
+        return
     baseline()
     # the generated table and the live function objects agree on which methods are memoised
     rt = runtime_methods()
